@@ -1,16 +1,17 @@
 package main
 
 import (
-	"verif/internal/prng"
-
 	"bytes"
+	"crypto/sha256"
 	"fmt"
+	"hash"
 	"io"
 
 	"github.com/ulikunitz/xz"
 
 	"verif/internal/ev"
 	"verif/internal/mon"
+	"verif/internal/prng"
 )
 
 func init() { register("C01", "exploration", checkC01) }
@@ -76,6 +77,9 @@ func checkC01(c *ev.Ctx) {
 	cases = append(cases, bigXZCases(c.Seed)...)
 	c.MinEvals(int64(len(cases) / 2))
 	defaultCtors(c, "xz")
+	if thorough(c) {
+		par(1, func(int) { hugeRoundTrip(c) })
+	}
 	par(len(cases), func(i int) {
 		k := cases[i]
 		noteCase(k.ID)
@@ -185,4 +189,81 @@ func firstDiff(a, b []byte) int {
 		}
 	}
 	return n
+}
+
+// patReader delivers n bytes of a deterministic, compressible pattern (text-like blocks with a
+// running counter) without holding them in memory.
+type patReader struct {
+	n, pos int64
+	h      hash.Hash
+}
+
+func (z *patReader) Read(p []byte) (int, error) {
+	if z.pos >= z.n {
+		return 0, io.EOF
+	}
+	if int64(len(p)) > z.n-z.pos {
+		p = p[:z.n-z.pos]
+	}
+	for i := range p {
+		q := z.pos + int64(i)
+		switch {
+		case q%4096 < 8:
+			p[i] = byte(q >> (8 * uint(q%8))) // block counter: keeps the stream from being one long run
+		default:
+			p[i] = "the quick brown fox jumps over the lazy dog "[q%44]
+		}
+	}
+	z.h.Write(p)
+	z.pos += int64(len(p))
+	return len(p), nil
+}
+
+// hugeRoundTrip streams more than 4 GiB through xz.Writer and xz.Reader (connected by a pipe)
+// and compares digests: stream positions beyond 2^32.  Thorough tier only (minutes of CPU).
+func hugeRoundTrip(c *ev.Ctx) {
+	id := "huge4g"
+	noteCase(id)
+	if !want(c, id) {
+		return
+	}
+	n := int64(1)<<32 + 70001
+	src := &patReader{n: n, h: sha256.New()}
+	pr, pw := io.Pipe()
+	var werr error
+	go func() {
+		defer func() {
+			if p := recover(); p != nil {
+				werr = fmt.Errorf("writer panic: %v", p)
+			}
+			pw.Close()
+		}()
+		w, err := xz.WriterConfig{DictCap: 1 << 20, CheckSum: xz.CRC64}.NewWriter(pw)
+		if err != nil {
+			werr = err
+			return
+		}
+		if _, err = io.Copy(w, src); err != nil {
+			werr = err
+			return
+		}
+		werr = w.Close()
+	}()
+	out := sha256.New()
+	var got int64
+	var rerr error
+	pn := mon.Guard(func() {
+		var r *xz.Reader
+		if r, rerr = xz.NewReader(pr); rerr != nil {
+			return
+		}
+		got, rerr = io.Copy(out, r)
+	})
+	pr.Close()
+	c.Eval("huge|"+id, true)
+	c.Count("bytes_in", n)
+	if pn != nil || werr != nil || rerr != nil || got != n || !bytes.Equal(out.Sum(nil), src.h.Sum(nil)) {
+		c.Violation("roundtrip-huge", map[string]any{"case_id": id, "input_len": n, "delivered": got,
+			"what": fmt.Sprintf("round trip of %d bytes (beyond 2^32) through a pipe: writer error %v, reader error %v, panic %v, %d bytes delivered, digests equal = %v", n, werr, rerr, pn, got, bytes.Equal(out.Sum(nil), src.h.Sum(nil)))})
+	}
 }
